@@ -93,6 +93,7 @@ func (f *Filer) Open(info types.SegmentInfo) (types.SegmentReader, error) {
 	var hdr [fileHeaderLen]byte
 
 	if _, err := rf.ReadAt(hdr[:], 0); err != nil {
+		rf.Close()
 		if errors.Is(err, io.EOF) {
 			// Treat failure to read a header as corruption since a sealed file should
 			// never not have a valid header. (I.e. even if crashes happen it should
@@ -105,10 +106,12 @@ func (f *Filer) Open(info types.SegmentInfo) (types.SegmentReader, error) {
 
 	gotInfo, err := readFileHeader(hdr[:])
 	if err != nil {
+		rf.Close()
 		return nil, err
 	}
 
 	if err := validateFileHeader(*gotInfo, info); err != nil {
+		rf.Close()
 		return nil, err
 	}
 
